@@ -1043,6 +1043,8 @@ def sec_dmtx(ck, hm, dm, ep):
         con = np.array([ids[i % len(ids)] for i in range(m)])[rng.permutation(m)]
         on = rng.uniform(ft[0], ft[-1], m)
         on[0], on[1] = ft[-1] - 0.25 * TR, ft[0] + 0.25 * TR
+        mo = [-24.0, -8.0, -2 * TR][nd % 3]          # min_onset is an argument like the others
+        on[2] = ft[0] - 6.0                          # a pre-scan event: inside the window for -24 / -8, outside for -2 TR (TR <= 2.5)
         block = rng.random() < .5
         amp = rng.uniform(.5, 2, m) * rng.choice([-1.0, 1.0, 1.0], m)
         durs = rng.uniform(0.5, 3 * TR, m)
@@ -1066,7 +1068,7 @@ def sec_dmtx(ck, hm, dm, ep):
         try:
             with warnings.catch_warnings():
                 warnings.simplefilter("ignore")
-                d = dm.make_dmtx(ft, par, model, dmodel, hfcut, order, delays, add, addn)
+                d = dm.make_dmtx(ft, par, model, dmodel, hfcut, order, delays, add, addn, mo)
                 drift, dnames = dm._make_drift(dmodel.lower(), ft, order, hfcut)
         except Exception as e:  # noqa
             ck.count(("dmtx-raise", TR, n, dmodel, hfcut), bucket="dmtx:raises")
@@ -1081,6 +1083,37 @@ def sec_dmtx(ck, hm, dm, ep):
             continue
         X, names = np.asarray(d.matrix), list(d.names)
         nd += 1
+        # dmtx_light forwards EVERY argument to make_dmtx (all of them non-default here) and writes the CSV of the same design
+        lrep = dict(rep0, fir_delays=delays, n_add_regs=nadd, add_reg_names=addn, min_onset=mo, con_id=con.tolist(), onsets=on.tolist(),
+                    amplitudes=amp.tolist(), durations=durs.tolist() if block else None, make_dmtx_names=[str(x) for x in names])
+        lpath = os.path.join(str(ck.scratch), "light_%d.csv" % nd)
+        for how in ("positional", "keyword"):
+            try:
+                with warnings.catch_warnings():
+                    warnings.simplefilter("ignore")
+                    if how == "positional":
+                        Xl, nl = dm.dmtx_light(ft, par, model, dmodel, hfcut, order, delays, add, addn, mo, lpath)
+                    else:
+                        Xl, nl = dm.dmtx_light(frametimes=ft, paradigm=par, hrf_model=model, drift_model=dmodel, hfcut=hfcut, drift_order=order,
+                                               fir_delays=delays, add_regs=add, add_reg_names=addn, min_onset=mo, path=lpath)
+                    back = dm.dmtx_from_csv(lpath)
+            except Exception as e:  # noqa
+                ck.fail("dmtx_light/raises", "dmtx_light (%s arguments) raised %s: %s" % (how, type(e).__name__, e), lrep)
+                break
+            ck.count(("light", nd, how), bucket="dmtx_light:%s:%s" % (how, "user-names" if addn else ("default-names" if nadd else "no-user-regressors")))
+            nl = [str(x) for x in nl]
+            if nl != [str(x) for x in names]:
+                ck.fail("dmtx_light/names-differ-from-make_dmtx/%s" % ("user-regressor-names" if addn else "other"),
+                        "dmtx_light(... add_reg_names=%s ...) returns names %s, make_dmtx with the same arguments %s" % (addn, nl, [str(x) for x in names]),
+                        dict(lrep, dmtx_light_names=nl))
+            Xl = np.asarray(Xl)
+            if Xl.shape != X.shape or not np.array_equal(Xl, X):
+                ck.fail("dmtx_light/matrix-differs-from-make_dmtx", "dmtx_light returns a matrix different from make_dmtx called with the same arguments "
+                        "(shape %s vs %s, max abs diff %s)" % (Xl.shape, X.shape, np.max(np.abs(Xl - X)) if Xl.shape == X.shape else "n/a"), lrep)
+            bn = [str(x) for x in back.names]
+            if bn != [str(x) for x in names] or np.asarray(back.matrix).shape != X.shape or not np.array_equal(np.asarray(back.matrix), X):
+                ck.fail("dmtx_light/csv-differs-from-make_dmtx", "the CSV written by dmtx_light(path=...) reads back as names %s / a matrix that differs from "
+                        "make_dmtx's design" % bn, dict(lrep, csv_names=bn))
         ck.count(("dmtx", TR, n, start, tuple(ids), model, dmodel, hfcut, order, nadd, named),
                  bucket="dmtx:%s:%s:%s" % (model, dmodel.lower(), "start0" if start == 0 else "shifted"))
         nb = len(delays) if model == "fir" else NCOL[model]
@@ -1102,7 +1135,7 @@ def sec_dmtx(ck, hm, dm, ep):
             dur = par.duration[sel] if block else np.zeros(sel.sum())
             with warnings.catch_warnings():
                 warnings.simplefilter("ignore")
-                c, _ = hm.compute_regressor((on[sel], dur, par.amplitude[sel]), model, ft, cid, 1 if model == "fir" else 16, delays)
+                c, _ = hm.compute_regressor((on[sel], dur, par.amplitude[sel]), model, ft, cid, 1 if model == "fir" else 16, delays, mo)
             blocks.append(np.asarray(c, float).reshape(n, -1))
         raw = np.hstack(blocks + ([add] if nadd else []) + [drift])
         sv = np.linalg.svd(raw, compute_uv=False)
@@ -1146,7 +1179,7 @@ def sec_dmtx(ck, hm, dm, ep):
         try:
             with warnings.catch_warnings():
                 warnings.simplefilter("ignore")
-                X2 = np.asarray(dm.make_dmtx(ft, par2, model, dmodel, hfcut, order, delays, add, addn).matrix)
+                X2 = np.asarray(dm.make_dmtx(ft, par2, model, dmodel, hfcut, order, delays, add, addn, mo).matrix)
         except Exception as e:  # noqa
             ck.fail("dmtx/raises/relisted", "make_dmtx raised %s: %s on the re-listed paradigm" % (type(e).__name__, e), rep)
             X2 = X
